@@ -26,6 +26,7 @@ import (
 	"fmt"
 	"strings"
 	"testing"
+	"time"
 
 	"filippo.io/sunlight/internal/verifmc"
 )
@@ -37,7 +38,23 @@ var (
 	c09Types     = []string{"cert", "precert"}
 	c09Endpoints = []string{"add-chain", "add-pre-chain"}
 	c09EKUs      = []string{"serverAuth", "clientAuth", "absent"}
-	c09Malformed = []string{"not_json", "empty_chain", "no_chain_key", "bad_base64", "truncated_der", "trailing_garbage", "truncated_intermediate", "body_129KiB"}
+	c09Malformed = []string{"not_json", "empty_chain", "no_chain_key", "bad_base64", "truncated_der", "trailing_garbage", "truncated_intermediate", "body_129KiB",
+		// a complete acceptable request object followed by trailing non-whitespace data
+		"json_trailing_text", "json_trailing_empty_chain_object", "json_trailing_bracket", "json_trailing_brace",
+		"json_trailing_nul", "json_trailing_null", "json_trailing_second_copy",
+		// control: trailing whitespace is still one JSON document and must be accepted
+		"control_trailing_whitespace",
+		// observed only (the property is silent): unknown extra top-level field
+		"observed_extra_field"}
+
+	c09JSONTrailers = map[string]string{
+		"json_trailing_text":               "garbage",
+		"json_trailing_empty_chain_object": ` {"chain":[]}`,
+		"json_trailing_bracket":            "]",
+		"json_trailing_brace":              "}",
+		"json_trailing_nul":                "\x00",
+		"json_trailing_null":               "null",
+	}
 )
 
 type c09Tuple struct {
@@ -73,15 +90,22 @@ type c09Item struct {
 // leaf in the verified chain) suffers one failing Upload, one failing Fetch
 // (transient, not "not found"), or both, at its first use.
 type c09Fault struct {
-	Shape  string `json:"shape"`  // leaf_i1 | leaf_i2 | precert_presign
-	Issuer int    `json:"issuer"` // 1-based position in the verified chain
-	Fail   string `json:"fail"`   // upload | fetch | both
+	Shape  string `json:"shape"`          // leaf_i1 | leaf_i2 | precert_presign
+	Issuer int    `json:"issuer"`         // 1-based position in the verified chain
+	Fail   string `json:"fail,omitempty"` // sequential variant: upload | fetch | both
+	// concurrent variant: the first Upload/Fetch of the issuer object is held
+	// inside the backend while a second submission sharing the issuers arrives,
+	// and then fails or succeeds.
+	Park string `json:"park,omitempty"` // upload | fetch
+	Then string `json:"then,omitempty"` // fail | succeed
 }
 
 func (it c09Item) Label() string {
 	switch {
 	case it.Tuple != nil:
 		return it.Tuple.Label()
+	case it.Fault != nil && it.Fault.Park != "":
+		return fmt.Sprintf("issuer-fault/concurrent/shape=%s/issuer=%d/park=%s/then=%s", it.Fault.Shape, it.Fault.Issuer, it.Fault.Park, it.Fault.Then)
 	case it.Fault != nil:
 		return fmt.Sprintf("issuer-fault/shape=%s/issuer=%d/fail=%s", it.Fault.Shape, it.Fault.Issuer, it.Fault.Fail)
 	}
@@ -117,7 +141,123 @@ func c09EnumerateFaults() []c09Item {
 			}
 		}
 	}
+	for _, sh := range c09FaultShapes {
+		for i := 1; i <= sh.issuers; i++ {
+			for _, park := range []string{"upload", "fetch"} {
+				for _, then := range []string{"fail", "succeed"} {
+					out = append(out, c09Item{Fault: &c09Fault{Shape: sh.name, Issuer: i, Park: park, Then: then}})
+				}
+			}
+		}
+	}
 	return out
+}
+
+// c09BlockedWait is how long the concurrent scenario waits, in real time, for
+// the second submission to either be answered or reach the pool before it
+// concludes "blocked behind the in-flight issuer I/O" and moves on. It only
+// schedules the next step; no verdict depends on it.
+const c09BlockedWait = 1 * time.Second
+
+func c09FaultTuple(it c09Item) *c09Tuple {
+	for _, sh := range c09FaultShapes {
+		if sh.name == it.Fault.Shape {
+			t := sh.tuple
+			return &t
+		}
+	}
+	c09Fail("unknown fault shape %q", it.Fault.Shape)
+	return nil
+}
+
+// c09RunFaultConcurrent: submission 1 is held inside the backend I/O of a new
+// issuer object; submission 2 (different leaf, same issuers) arrives; the log
+// is sequenced; the held I/O then fails or succeeds; the log is sequenced until
+// both are answered. Judged at the end: every accepted submission has a correct
+// stored leaf and every certificate of its verified chain retrievable; a
+// rejection is a 5xx, leaves no leaf, and happens only if a failure was injected.
+func c09RunFaultConcurrent(rp *verifmc.Report, it c09Item) {
+	c09InitPKI()
+	c09InstallClock()
+	r := &c09Runner{rp: rp, items: []c09Item{it}, env: c09NewEnv(), codes: map[string][2]int{}}
+	defer r.env.close()
+	env := r.env
+	tu := c09FaultTuple(it)
+	if _, err := env.setRoots(c09PKIs["accepted"].root, c09PKIs["removed"].root); err != nil {
+		c09Fail("SetRootsFromPEM: %v", err)
+	}
+	chains := [][][]byte{c09BuildChain(*tu, 0), c09BuildChain(*tu, 1)}
+	ok, effective, why := c09Predicate(chains[0], env.roots, tu.Endpoint)
+	if !ok || it.Fault.Issuer < 1 || it.Fault.Issuer >= len(effective) {
+		c09Fail("%s: base chain not acceptable or issuer index out of range: %s", it.Label(), why)
+	}
+	key := fmt.Sprintf("issuer/%x", sha256.Sum256(effective[it.Fault.Issuer].Raw))
+	park := c09NewPark(key, it.Fault.Park)
+	env.be.park = park
+	defer park.releaseWith(false)
+
+	subs := make([]*c09Sub, 2)
+	for i, c := range chains {
+		subs[i] = &c09Sub{Endpoint: tu.Endpoint, Chain: c, LeafDER: c[0], Body: c09Body(c)}
+	}
+	oldN := env.treeSize()
+	fl := &c09Flight{env: env}
+	fl.launch(subs[0])
+	fl.settle(0) // submission 1 is now held inside the hook (or answered / in the pool)
+	held := park.active.Load()
+	fl.launch(subs[1])
+	fl.settle(c09BlockedWait)
+	answeredEarly := subs[1].done.Load()
+	fl.sequence()
+	park.releaseWith(it.Fault.Then == "fail")
+	fl.drain()
+	newN := env.treeSize()
+	rp.Add("submissions", 2)
+
+	leaves, err := env.readLeaves(0, newN)
+	if err != nil {
+		r.viol(it, "reading the sequenced leaves back: %v", err)
+		return
+	}
+	claimed := map[int64]bool{}
+	accepted := int64(0)
+	for i, s := range subs {
+		where := fmt.Sprintf("submission %d", i+1)
+		if s.code != 200 {
+			if s.code < 500 || s.code > 599 {
+				r.viol(it, "%s: acceptable chain rejected with status %d, which is not a server error, under a storage fault: %s", where, s.code, c09Clip(s.resp))
+			}
+			if it.Fault.Then != "fail" {
+				r.viol(it, "%s: acceptable chain rejected with status %d although no storage operation failed: %s", where, s.code, c09Clip(s.resp))
+			}
+			for idx, le := range leaves {
+				if bytes.Equal(le.Cert, s.LeafDER) || bytes.Equal(le.PreCert, s.LeafDER) {
+					r.viol(it, "%s: rejected with status %d but leaf %d carries its certificate", where, s.code, idx)
+				}
+			}
+			continue
+		}
+		accepted++
+		rp.Add("accepted", 1)
+		_, eff, _ := c09Predicate(s.Chain, env.roots, tu.Endpoint)
+		sct, err := c09ParseSCT(s.resp)
+		if err != nil {
+			r.viol(it, "%s: unparsable add-chain response %s: %v", where, c09Clip(s.resp), err)
+			continue
+		}
+		if sct.index < oldN || sct.index >= newN || claimed[sct.index] {
+			r.viol(it, "%s: SCT leaf_index %d is not a distinct new leaf of [%d,%d)", where, sct.index, oldN, newN)
+			continue
+		}
+		claimed[sct.index] = true
+		r.checkAccepted(it, where+" (judged after all storage I/O finished)", sct, leaves[sct.index], eff)
+	}
+	if newN-oldN != accepted {
+		r.viol(it, "tree grew by %d leaves for %d accepted submissions", newN-oldN, accepted)
+	}
+	rp.Eval(it.Label())
+	rp.Sample(map[string]any{"case": it.Label(), "status_submission_1_2": []int{subs[0].code, subs[1].code},
+		"submission_1_held_in_backend": held, "submission_2_answered_while_1_held": answeredEarly})
 }
 
 // c09RunFault runs one issuer-storage fault scenario on a fresh log: submit an
@@ -126,6 +266,10 @@ func c09EnumerateFaults() []c09Item {
 // issuers. Every step is held to: rejected with 5xx and no leaf, or accepted
 // with the leaf correct and every certificate of the verified chain retrievable.
 func c09RunFault(rp *verifmc.Report, it c09Item) {
+	if it.Fault.Park != "" {
+		c09RunFaultConcurrent(rp, it)
+		return
+	}
 	c09InitPKI()
 	c09InstallClock()
 	r := &c09Runner{rp: rp, items: []c09Item{it}, env: c09NewEnv(), codes: map[string][2]int{}}
@@ -272,7 +416,26 @@ func c09MalformedSub(it c09Item, phase int) *c09Sub {
 		s.LeafDER = c[0]
 		b := c09Body(c)
 		s.Body = append(b, bytes.Repeat([]byte(" "), 129*1024-len(b))...)
+	case "json_trailing_second_copy":
+		c := good()
+		s.LeafDER = c[0]
+		s.Body = append(c09Body(c), c09Body(c)...)
+	case "control_trailing_whitespace":
+		c := good()
+		s.LeafDER, s.Chain, s.expect = c[0], c, "accept"
+		s.Body = append(c09Body(c), " \n\r\n\t \n"...)
+	case "observed_extra_field":
+		c := good()
+		s.LeafDER, s.Chain, s.expect = c[0], c, "observe"
+		b := c09Body(c)
+		s.Body = append(b[:len(b)-1:len(b)-1], `,"x":1}`...)
 	default:
+		if tr, ok := c09JSONTrailers[it.Malformed]; ok {
+			c := good()
+			s.LeafDER = c[0]
+			s.Body = append(c09Body(c), tr...)
+			break
+		}
 		panic("c09: unknown malformed kind " + it.Malformed)
 	}
 	return s
@@ -366,6 +529,9 @@ func (r *c09Runner) phase(phase int) {
 		var effective []*x509.Certificate
 		if it.Tuple != nil {
 			judged = !it.Tuple.Ambiguous()
+			want, effective, why = c09Predicate(s.Chain, env.roots, s.Endpoint)
+		} else if s.expect != "" {
+			judged = s.expect == "accept"
 			want, effective, why = c09Predicate(s.Chain, env.roots, s.Endpoint)
 		}
 		if s.code != 200 {
@@ -559,7 +725,7 @@ func TestVerifC09(t *testing.T) {
 		return
 	}
 	all := c09Enumerate()
-	rp.Note("enumeration", fmt.Sprintf("%d chain tuples (4 root memberships x 7 shapes x 6 NotAfter positions x 2 types x 2 endpoints x 2 presign x 3 EKU), each submitted before and after the root reload, + %d malformed bodies (%d kinds x 2 endpoints)",
+	rp.Note("enumeration", fmt.Sprintf("%d chain tuples (4 root memberships x 7 shapes x 6 NotAfter positions x 2 types x 2 endpoints x 2 presign x 3 EKU), each submitted before and after the root reload, + %d non-chain-tuple bodies (%d kinds x 2 endpoints: malformed bodies incl. trailing data after a complete request object, one trailing-whitespace control that must be accepted, one unknown-extra-field body that is only observed)",
 		len(all)-2*len(c09Malformed), 2*len(c09Malformed), len(c09Malformed)))
 	rp.Note("tier_coverage", "quick and thorough both enumerate the full product (every tuple, both reload phases) and every malformed body; nothing is sampled or restricted")
 	rp.Note("judged", "acceptance <=> 200 is judged on unambiguous tuples only; tuples with an absent EKU extension, an unrelated extra certificate, out-of-order intermediates, or a final certificate issued by a precertificate signing certificate are judged on the conditional invariants only")
@@ -577,7 +743,7 @@ func TestVerifC09(t *testing.T) {
 	// Issuer-storage fault sub-enumeration (bounded-exhaustive): accepted shape x
 	// issuer object of the verified chain x {first Upload fails, first Fetch fails, both}.
 	faults := c09EnumerateFaults()
-	rp.Note("issuer_fault_enumeration", fmt.Sprintf("%d scenarios: shapes {leaf+intermediate, leaf+2 intermediates, precertificate with signing certificate} x every issuer object of the verified chain (incl. the omitted root) x {first Upload fails once, first Fetch fails once with a transient error, both}; each: submit, resubmit identical chain, submit sibling leaf, on one fresh log", len(faults)))
+	rp.Note("issuer_fault_enumeration", fmt.Sprintf("%d scenarios over shapes {leaf+intermediate, leaf+2 intermediates, precertificate with signing certificate} x every issuer object of the verified chain (incl. the omitted root): sequential x {first Upload fails once, first Fetch fails once with a transient error, both} as submit / resubmit identical chain / submit sibling leaf; concurrent x {first Upload held, first Fetch held} x {then fails, then succeeds} as submission 1 held inside the backend, submission 2 (sibling leaf, same issuers) posted, sequence, release, sequence until answered; each on one fresh log, judged after all storage I/O finished", len(faults)))
 	for _, it := range faults {
 		batch++
 		if !rp.Mine(batch) {
